@@ -147,6 +147,7 @@ theorem next_spec (S : TreeSpec T cap) (it : Iter σ) (P : List (List Int)) (hR 
         rw [hslots]; simp
       obtain ⟨s'', hpush, hok'', hslots''⟩ :=
         S.push_ok s' ⟨x, e.index⟩ hok' (Nat.lt_of_lt_of_le hidx hR.lecap) hfree
+      have hslots2 : ∀ j, S.slot s'' j = if j = e.index then some x else S.slot s' j := hslots''
       refine ⟨some e.item, { heap := s'', list := it.list.set e.index r },
         by simp only [next, hpop, if_pos hil, hrest, hpush], ?_⟩
       refine ⟨e.index, x :: r, hidx, by rw [hPe, hrest], hminP, ?_⟩
@@ -154,9 +155,9 @@ theorem next_spec (S : TreeSpec T cap) (it : Iter σ) (P : List (List Int)) (hR 
       · intro i hi
         simp only [List.length_set] at hi
         show (P.set e.index (x :: r)).getD i [] = pend (S.slot s'' i) ((it.list.set e.index r).getD i [])
-        rw [getD_set, getD_set, hslots'' i, hslots i]
+        rw [getD_set, getD_set, hslots2 i, hslots i]
         by_cases hie : i = e.index
-        · subst hie; rw [if_pos ⟨rfl, hidx⟩, if_pos ⟨rfl, hil⟩, if_pos rfl]; rfl
+        · subst hie; simp only [hidx, hil, and_self, if_true]; rfl
         · have : ¬ (e.index = i) := fun h => hie h.symm
           simp only [this, false_and, if_false, if_neg hie]
           exact hR.pend i hi
@@ -164,7 +165,7 @@ theorem next_spec (S : TreeSpec T cap) (it : Iter σ) (P : List (List Int)) (hR 
         simp only [List.length_set] at hi
         have h2 : S.slot s'' i = none := hnone
         show (it.list.set e.index r).getD i [] = []
-        rw [hslots'' i] at h2
+        rw [hslots2 i] at h2
         by_cases hie : i = e.index
         · rw [if_pos hie] at h2; cases h2
         · rw [if_neg hie, hslots i, if_neg hie] at h2
@@ -176,7 +177,7 @@ theorem next_spec (S : TreeSpec T cap) (it : Iter σ) (P : List (List Int)) (hR 
         simp only [List.length_set] at hi
         show S.slot s'' i = none
         have hie : ¬ (i = e.index) := by omega
-        rw [hslots'' i, if_neg hie, hslots i, if_neg hie]
+        rw [hslots2 i, if_neg hie, hslots i, if_neg hie]
         exact hR.out i hi
 
 /-- `collect` with enough fuel terminates normally with the sorted merge of everything pending -/
@@ -301,6 +302,6 @@ theorem merge_spec (S : TreeSpec T cap) (runs : List (List Int)) (s0 : σ)
   obtain ⟨out, hc, hso, hpo⟩ :=
     collect_spec S (runs.flatten.length + 1) ⟨h', ls⟩ runs [] hR hs (Nat.le_refl _)
       (by simp [Sorted]) (by intro a ha; cases ha)
-  refine ⟨out, by simp [merge, new, hl, hc], hso, by simpa using hpo⟩
+  refine ⟨out, by simp only [merge, new, hl, hc], hso, by simpa using hpo⟩
 
 end Tbx.KWay
